@@ -80,6 +80,113 @@ func draw(t *rapid.T) Case {
 	return Case{Doc: dt, Patch: pt, Neg: neg}
 }
 
+// drawAfterEdits: the ensure-add comes AFTER other operations of the same patch
+// have edited the document (removes and moves out of arrays, earlier adds), and
+// is drawn against the state they leave: padding must be nulls whatever sat in
+// the array's storage before, and containers changed earlier must keep their changes.
+func drawAfterEdits(t *rapid.T) Case {
+	doc := gen.Default.Root().Draw(t, "doc")
+	neg := rapid.Bool().Draw(t, "neg")
+	ro := ref.Opts{Neg: neg, Ensure: true}
+	st := &ref.State{Root: doc.Clone()}
+	g := gen.NewOpGen(neg).Calm()
+	g.Kinds = []string{"remove", "remove", "move", "add", "copy", "replace"}
+	var ops []ref.Op
+	step := func(op ref.Op) bool {
+		trial := &ref.State{Root: st.Root.Clone()}
+		if r := ref.Step(trial, op, ro); r.Cause != ref.COK {
+			return false
+		}
+		st = trial
+		ops = append(ops, op)
+		return true
+	}
+	for i, n := 0, gen.Uniform(t, 1, 4, "pre"); i < n; i++ {
+		step(g.Next(t, st.Root, i))
+	}
+	// one or two ensure-adds below arrays (index past the end) or below absent members of the current state
+	for i, n := 0, gen.Uniform(t, 1, 2, "nadds"); i < n; i++ {
+		cs := gen.Containers(st.Root)
+		bc := cs[rapid.IntRange(0, len(cs)-1).Draw(t, "ci")]
+		path := bc.Ptr
+		if bc.V.K == ref.KArr {
+			path += "/" + fmt.Sprint(len(bc.V.Arr)+gen.Uniform(t, 1, 3, "past"))
+			if rapid.Bool().Draw(t, "deeper") {
+				path += "/" + ref.EncodeTok(rapid.SampledFrom(namePool).Draw(t, "dn"))
+			}
+		} else {
+			path += "/" + ref.EncodeTok(rapid.SampledFrom(namePool).Draw(t, "nm")) + "/" + fmt.Sprint(gen.Uniform(t, 0, 3, "ix"))
+		}
+		step(ref.Op{Op: "add", Path: path, Value: gen.Default.Value(1).Draw(t, "val")})
+	}
+	for i, n := 0, gen.Uniform(t, 0, 2, "post"); i < n; i++ {
+		step(g.Next(t, st.Root, len(ops)))
+	}
+	dt, pt := gen.Texts(t, doc, ref.OpsTree(ops), false, "sp")
+	return Case{Doc: dt, Patch: pt, Neg: neg}
+}
+
+// checkSeq: the whole sequence under the option against the reference, ordered.
+func checkSeq(c Case) ev.Verdict {
+	doc, ops, why := lib.ParseCase(c.Doc, c.Patch)
+	if why != "" {
+		return ev.Excluded(why)
+	}
+	for _, op := range ops {
+		if lib.BigIndex(op.Path) {
+			return ev.Excluded("array index above 10^4 under EnsurePathExistsOnAdd (quadratic padding; outside C04's stated domain)")
+		}
+	}
+	on := lib.Options{Neg: c.Neg, Esc: true, Ensure: true}
+	want := ref.Apply(doc, ops, on.Ref())
+	if want.OutOfDomain() {
+		return ev.Excluded("out of domain: "+want.Res.Why, "ood")
+	}
+	got := lib.Apply(c.Doc, c.Patch, on)
+	if got.Panic != nil {
+		return ev.Verdict{Err: got.Panic}
+	}
+	if got.DecodeErr != nil {
+		return ev.Fail("DecodePatch rejected a valid patch: %v", got.DecodeErr)
+	}
+	created, padded, before := 0, 0, 0
+	for i, r := range want.Results {
+		if r.Created > 0 || r.Padded > 0 {
+			created += r.Created
+			padded += r.Padded
+			if before == 0 {
+				before = i
+			}
+		}
+	}
+	v := ev.Verdict{Classes: []string{fmt.Sprintf("ops=%d", min(len(ops), 8)), fmt.Sprintf("padded=%d", min(padded, 4)), fmt.Sprintf("ops-before-first-ensure=%d", min(before, 4))}}
+	v.NonTrivial = want.OK() && (created > 0 || padded > 0) && before >= 1
+	if want.OK() != (got.Err == nil) {
+		v.Err = fmt.Errorf("reference ok=%v (fail at %d: %s) but library: %v", want.OK(), want.FailAt, want.Res.Cause, got)
+		return v
+	}
+	if !want.OK() {
+		return v
+	}
+	out, err := ref.Parse(got.Out)
+	if err != nil {
+		v.Err = fmt.Errorf("output not well-formed: %q", got.Out)
+		return v
+	}
+	if !ref.EqualOrdered(out, want.Doc) {
+		v.Err = fmt.Errorf("result differs from the reference (ensure+add after earlier edits: frame condition, created containers, null padding)\n got:  %s\n want: %s", got.Out, want.Doc)
+	}
+	return v
+}
+
+var seqUnit = ev.Unit[Case]{
+	Name: "ensure-after-edits",
+	Rule: "document x 1-4 applicable operations (removes and moves out of arrays, adds, copies, replaces) x 1-2 adds under EnsurePathExistsOnAdd drawn against the state those leave (an index 1-3 past the end of an existing array, optionally a member below it; or a new member holding an array) x 0-2 further operations; oracle: the whole sequence against the reference evaluator with the option, ordered comparison; non-trivial = every operation applies, something was created or padded, and at least one operation precedes the first ensuring add",
+	Draw: drawAfterEdits, Check: checkSeq,
+}
+
+func TestPropSeq(t *testing.T) { ev.RunProp(t, "C14", seqUnit) }
+
 func check(c Case) ev.Verdict {
 	doc, ops, why := lib.ParseCase(c.Doc, c.Patch)
 	if why != "" {
@@ -169,5 +276,7 @@ var unit = ev.Unit[Case]{
 	Draw: draw, Check: check,
 }
 
-func TestProp(t *testing.T)   { ev.RunProp(t, "C14", unit) }
-func TestReplay(t *testing.T) { ev.Replay(t, map[string]ev.Replayer{unit.Name: unit.Replayer()}) }
+func TestProp(t *testing.T) { ev.RunProp(t, "C14", unit) }
+func TestReplay(t *testing.T) {
+	ev.Replay(t, map[string]ev.Replayer{unit.Name: unit.Replayer(), seqUnit.Name: seqUnit.Replayer()})
+}
